@@ -181,6 +181,7 @@ func runC01(c *Ctx) {
 		}
 		// correspondence: the Lean codec model predicts the normal form (ordered) of the same input
 		corrNorm(c, kind, doc)
+		corrTidy(c, kind, doc)
 		if len(c.Res.Samples) < 4 && doc.Size() > 12 {
 			c.Sample(map[string]interface{}{"kind": kind, "doc": json.RawMessage(doc.Text())})
 		}
@@ -272,6 +273,50 @@ func corrClean(c *Ctx, kind string, text []byte) {
 	c.CorrAs(map[string]interface{}{"op": "clean", "doc": v.Wire()}, impl, "implies",
 		map[string]interface{}{"kind": kind, "first_output": clip(string(out1)), "second_output": clip(string(out2))},
 		"C07:clean-output-not-a-fixed-point")
+}
+
+// shuffled returns v with the members of every object, at every depth, in a random order (arrays keep theirs).
+func shuffled(c *Ctx, v wire.V) wire.V {
+	switch v.Kind {
+	case wire.Arr:
+		out := wire.V{Kind: wire.Arr, A: make([]wire.V, len(v.A))}
+		for i, x := range v.A {
+			out.A[i] = shuffled(c, x)
+		}
+		return out
+	case wire.Obj:
+		out := wire.V{Kind: wire.Obj, O: make([]wire.Member, len(v.O))}
+		for i, j := range c.Rng.Perm(len(v.O)) {
+			out.O[i] = wire.Member{K: v.O[j].K, V: shuffled(c, v.O[j].V)}
+		}
+		return out
+	}
+	return v
+}
+
+// corrTidy ties the order-independence theorem (Codec/Perm.lean) to the implementation: the driver evaluates
+// `tidyB` (proved to imply the theorem's hypothesis `Tidy`) on the document; whenever it holds, decoding and
+// encoding a random reordering of the document (members of every object, every depth) must give byte for byte
+// what the document itself gives.
+func corrTidy(c *Ctx, kind string, doc wire.V) {
+	if c.Driver == "" || !c.HasOp("tidy") || !doc.InModel() {
+		return
+	}
+	sh := shuffled(c, doc)
+	out1, err1, pan1 := roundTrip(kind, []byte(doc.Text()))
+	out2, err2, pan2 := roundTrip(kind, []byte(sh.Text()))
+	impl := "same"
+	switch {
+	case pan1 != "" || pan2 != "":
+		impl = "panic"
+	case (err1 == nil) != (err2 == nil):
+		impl = "differs"
+	case err1 == nil && string(out1) != string(out2):
+		impl = "differs"
+	}
+	c.CorrAs(map[string]interface{}{"op": "tidy", "doc": doc.Wire()}, impl, "implies",
+		map[string]interface{}{"kind": kind, "doc": json.RawMessage(doc.Text()), "reordered": json.RawMessage(sh.Text()), "first": clip(string(out1)), "second": clip(string(out2))},
+		"C01:result-depends-on-member-order")
 }
 
 var refPoolC13 = []string{"HTTP://Example.COM:80/a//b.json#/x", "https://h:443/p", "a b.json", "é.json#/ü", "#/a~0b~1c", "./x/../y.json", "file:///C:/x.json", "//host/p"}
